@@ -69,28 +69,28 @@ def main(tier, seed, replay=None):
         rep.write_evidence = False
         import json
         c = json.load(open(replay))['case']
-        if c.get('kind') == 'S2':
+        if c.get('kind') in ('S1', 'S2'):
             import c03
-            traces = [c03.scenario((c['sym'], c['seed'], 'S2'))]
+            traces = [c03.scenario((c['sym'], c['seed'], c['kind']))]
         else:
             prog, tr = T.generate(c['sym'], False, c['seed'], 7 if tier == 'quick' else 9, WEIGHTS)
             traces = [tr]
-        s2seeds = set()
+        s2seeds = {}
     else:
         nprog = 320 if tier == 'quick' else 4000
         traces = run_programs(rep, nprog, 7 if tier == 'quick' else 9, seed, WEIGHTS, 'C01')
         # trace over FUSED groups whose two sides carry different sector content, stored in a permuted order and possibly lazily transposed
         # (the scenario generator of C03/S2): the random programs above only trace legs that agree sector by sector
         import c03
-        s2jobs = [(SYMLIST[i % len(SYMLIST)], seed * 1000211 + 500000 + i, 'S2') for i in range(70 if tier == 'quick' else 700)]
+        s2jobs = [(SYMLIST[i % len(SYMLIST)], seed * 1000211 + 500000 + i, 'S2' if (i // 7) % 2 == 0 else 'S1') for i in range(140 if tier == 'quick' else 1400)]
         with ProcessPoolExecutor(max_workers=14) as ex:
             s2 = list(ex.map(c03.scenario, s2jobs, chunksize=4))
-        s2seeds = set(j[1] for j in s2jobs)
+        s2seeds = {j[1]: j[2] for j in s2jobs}
         traces += s2
     nev, kinds, rej = report_traces(rep, traces)
     for v in rep.violations:
         if v[2].get('seed') in s2seeds:
-            v[2]['kind'] = 'S2'
+            v[2]['kind'] = s2seeds[v[2]['seed']]
     rep.cov['traces_validated_against_impl'] = len(traces)
     rep.cov['evaluations'] = nev
     rep.cov['distinct_nontrivial'] = sum(1 for t in traces for e in t['ev'] if e['op'] != 'init' and (e.get('out') != 'ok' or 'val' in e or e['obs']['ent']))
